@@ -171,6 +171,22 @@ def stub_fold_one_phase(u):
     return fp.render().replace('// @@FN:', '// (contract proved in unit fold) ').replace('// @@ENDFN:', '// end ')
 
 
+def contract_final_query_point(fq):
+    fq.requires('allocated', 'old(builder).has_all(index_bits@) && old(builder).has_all(powers_of_g@) && total_bits_consumed <= log_max_height <= index_bits@.len() && all_bool(old(builder).vals_of(index_bits@))')
+    fq.ensures('frame', 'final(builder).extends_pure(old(builder)) && final(builder).has(ret)')
+    fq.ensures('select_mul_chain_over_reversed_remaining_bits', """({ let b = old(builder); let n = imin(log_max_height as int, powers_of_g@.len() as int);
+            final(builder).val(ret) == selprod(final_bits(b.vals_of(index_bits@), log_max_height as int, total_bits_consumed as int), b.vals_of(powers_of_g@), n) })""")
+
+
+def stub_final_query_point(u):
+    """the contract of compute_final_query_point exactly as unit fchain proves it (same generator), body dropped"""
+    fq = common(erase_sig(Fn(u, extract_fn('recursion/src/pcs/fri/verifier.rs', '', 'compute_final_query_point', u.cfgs), 'compute_final_query_point')))
+    contract_final_query_point(fq)
+    fq.body = '{ unimplemented!() }'
+    fq.attr('#[verifier::external_body]')
+    return fq.render().replace('// @@FN:', '// (contract proved in unit fchain) ').replace('// @@ENDFN:', '// end ')
+
+
 def build():
     u = Unit('fchain', ['C07'])
     u.rlimit = 100
@@ -266,10 +282,7 @@ def build():
     unfor_zip(fq)
     fq.rewrite_re('R6', r'let mut reversed_bits = vec!\[builder\.define_const\(EF::ZERO\); total_bits_consumed\];', 'let zero_fq_ = builder.define_const(EF::zero()); let mut reversed_bits = vec![zero_fq_; total_bits_consumed];', min_count=0)
     fq.attr('#[verifier::loop_isolation(false)]')
-    fq.requires('allocated', 'old(builder).has_all(index_bits@) && old(builder).has_all(powers_of_g@) && total_bits_consumed <= log_max_height <= index_bits@.len() && all_bool(old(builder).vals_of(index_bits@))')
-    fq.ensures('frame', 'final(builder).extends_pure(old(builder)) && final(builder).has(ret)')
-    fq.ensures('select_mul_chain_over_reversed_remaining_bits', """({ let b = old(builder); let n = imin(log_max_height as int, powers_of_g@.len() as int);
-            final(builder).val(ret) == selprod(final_bits(b.vals_of(index_bits@), log_max_height as int, total_bits_consumed as int), b.vals_of(powers_of_g@), n) })""")
+    contract_final_query_point(fq)
     fq.at_start('let ghost fb = final_bits(old(builder).vals_of(index_bits@), log_max_height as int, total_bits_consumed as int); let ghost pw = old(builder).vals_of(powers_of_g@);')
     if 'for er_ in 0..domain_index_bits.len()' in fq.body and 'for fz_ in 0..n_fz_' in fq.body:
         fq.before('for er_ in 0..domain_index_bits.len()', 'let ghost b1 = *builder; proof { assert(domain_index_bits@ == index_bits@.subrange(total_bits_consumed as int, log_max_height as int)); }')
